@@ -95,6 +95,8 @@ def _build_frame(fs):
     else:
       l4 = pay
       proto = fs["proto"]
+    if fs.get("l4cut") is not None:
+      l4 = l4[:fs["l4cut"]]           # cut off inside the transport header
     flags, off = (0, 0)
     if frag:
       flags, off = (1 if frag[0] else 0), frag[1]
@@ -573,6 +575,8 @@ class Ref(object):
     sim = self.sim
     now = sim.now
     key = F.lookup_key(raw, port)
+    if None in key.values():
+      sim.probes["frame_lacks_a_field"] += 1
     cands = mdl.candidates(key)
     mdl.lookups += 1
     impl = self.probe_table()
@@ -856,7 +860,8 @@ def _norm(acts):
 def _kbrief(key):
   return "{%s}" % ", ".join(
       "%s=%s" % (k, v.hex() if isinstance(v, bytes) else
-                 (hex(v) if k in ("dl_type", "nw_src", "nw_dst") else v))
+                 (hex(v) if k in ("dl_type", "nw_src", "nw_dst")
+                  and v is not None else v))
       for k, v in key.items() if k != "in_port")
 
 
